@@ -7,7 +7,7 @@
    Session code 7 (StaleSweep n c: the node's periodic sweep finds control connection c silent beyond the heartbeat
    timeout) is not an event of its own: ClientRegistry.CleanupStale removes c from the registry and calls
    CloseConnection, i.e. it IS the event Close n c when c is a registered control connection, and nothing otherwise. *)
-From TX Require Import Base.Val Model.ConnState Model.ConnStateThreads.
+From TX Require Import Base.Val Model.ConnState Model.ConnStateThreads Model.ClientState.
 Open Scope N_scope.
 
 Definition dec_variant (v : tval) : variant :=
@@ -53,6 +53,41 @@ Definition sess_step (v : variant) (b : backend) (ttl : N) (w : world) (op : tva
        | None => w
        end
   else step v b ttl w (dec_event op).
+
+(* the client runtime-state record, observed on every node after every event: element 7 of the case value
+   ([] when not observed); same events, same desugaring of the stale sweep *)
+Definition enc_fres_rs (f : fres) : tval :=
+  match f with Found n c => VL [VN 1; VN n; VN c] | Absent => VL [VN 0; VN 0; VN 0] | FErr => VL [VN 2; VN 0; VN 0] end.
+Definition rs_of (o : option (N * N)) : fres := match o with Some (n, c) => Found n c | None => Absent end.
+
+Definition sess_rs_step (v : variant) (b : backend) (ttl : N) (w : world) (rs : rstate) (op : tval) : rstate :=
+  if vn (vnth 0 op) =? 7
+  then match w_ctl w (vn (vnth 1 op)) (vn (vnth 2 op)) with
+       | Some _ => rs_event false w rs (Close (vn (vnth 1 op)) (vn (vnth 2 op)))
+       | None => rs
+       end
+  else rs_event false w rs (dec_event op).
+
+Fixpoint check_session_rs (v : variant) (b : backend) (ttl : N) (clients : list N) (w : world) (rs : rstate)
+         (ops obs : list tval) : bool :=
+  match ops, obs with
+  | [], [] => true
+  | op :: ops', o :: obs' =>
+      let rs' := sess_rs_step v b ttl w rs op in
+      let w' := sess_step v b ttl w op in
+      obs_ok (map (fun x => rs_of (rs' x)) clients) o && check_session_rs v b ttl clients w' rs' ops' obs'
+  | _, _ => false
+  end.
+
+Fixpoint predict_session_rs (v : variant) (b : backend) (ttl : N) (clients : list N) (w : world) (rs : rstate)
+         (ops : list tval) : list tval :=
+  match ops with
+  | [] => []
+  | op :: ops' =>
+      let rs' := sess_rs_step v b ttl w rs op in
+      let w' := sess_step v b ttl w op in
+      VL (map (fun x => enc_fres_rs (rs_of (rs' x))) clients) :: predict_session_rs v b ttl clients w' rs' ops'
+  end.
 
 Fixpoint check_session (v : variant) (b : backend) (ttl : N) (clients : list N) (w : world) (ops obs : list tval) : bool :=
   match ops, obs with
@@ -128,7 +163,11 @@ Definition check (c : tval) : bool :=
   if vn (vnth 3 c) =? 2 then check_conc (vbool (vnth 4 (vnth 0 c))) clients (vnth 5 c) (vnth 6 c) else
   if vn (vnth 3 c) =? 0
   then check_store v b ttl clients (0, empty_store) (vl (vnth 5 c)) (vl (vnth 6 c))
-  else check_session v b ttl clients init (vl (vnth 5 c)) (vl (vnth 6 c)).
+  else check_session v b ttl clients init (vl (vnth 5 c)) (vl (vnth 6 c))
+       && match vl (vnth 7 c) with
+          | [] => true
+          | rsobs => check_session_rs v b ttl clients init rs_empty (vl (vnth 5 c)) rsobs
+          end.
 
 Definition enc_fres (f : fres) : tval :=
   match f with Found n c => VL [VN 1; VN n; VN c] | Absent => VL [VN 0; VN 0; VN 0] | FErr => VL [VN 2; VN 0; VN 0] end.
@@ -157,4 +196,5 @@ Definition predict (c : tval) : tval :=
   if vn (vnth 3 c) =? 2 then predict_conc (vbool (vnth 4 (vnth 0 c))) clients (vnth 5 c) else
   if vn (vnth 3 c) =? 0
   then VL (predict_store v b ttl clients (0, empty_store) (vl (vnth 5 c)))
-  else VL (predict_session v b ttl clients init (vl (vnth 5 c))).
+  else VL [VL (predict_session v b ttl clients init (vl (vnth 5 c)));
+           VL (predict_session_rs v b ttl clients init rs_empty (vl (vnth 5 c)))].
